@@ -37,6 +37,8 @@ pub struct DepthRecord {
     /// environments.len() - env_fp
     pub env_depth: i64,
     pub binding_stack: u32,
+    /// frame.iterators.len(): iterator records (for-of / for-in / destructuring / yield*) open in this frame
+    pub iterators: u32,
 }
 
 pub fn set_switches(bits: u32) {
@@ -112,6 +114,7 @@ pub(crate) fn log_depths(context: &Context, opcode: Opcode) {
             - i64::from(frame.code_block.register_count),
         env_depth: frame.environments.len() as i64 - i64::from(frame.env_fp),
         binding_stack: frame.binding_stack.len() as u32,
+        iterators: frame.iterators.len() as u32,
     };
     DEPTHS.with(|d| {
         let mut d = d.borrow_mut();
